@@ -253,6 +253,15 @@ def _endpoints(v):
     return lo, hi
 
 
+def range_end_is_anyaddr(v):
+    """a-b[/m] whose (masked) second address is ::ffff:0:0 although the first is not: squid reads it as the single value a[/m]"""
+    if v[0] != "v" or v[4] is None or denote(v) is None:
+        return False
+    d = denote(v)
+    e = _endpoints(v)
+    return d[0] == "set" and e is not None and e[1] != d[2]
+
+
 def self_incomparable(v):
     e = _endpoints(v)
     if e is None:
@@ -275,6 +284,8 @@ def classify(line, impl, why):
     if impl.startswith("abort:") or not why:
         return None
     eps = [e for e in (_endpoints(v) for v in vals) if e]
+    if why.startswith("address ") and any(range_end_is_anyaddr(v) for v in vals):
+        return "C42-range-end-anyaddr"
     if why.startswith("address "):
         x = int(why.split(" ")[1].rstrip(":"), 16)
         # /0 on an IPv6 value
@@ -282,7 +293,14 @@ def classify(line, impl, why):
                 and not any(member(d, x) for d in (denote(v) for v in vals if not (v[0] == "v" and v[5] == ("n", 0) and v[1] == 6))):
             return "C42-v6-slash-zero"
         special = {V4ANY, V4NO}
-        if x in special or any(lo == V4ANY or hi == V4ANY or lo == V4NO for lo, hi in eps):
+        # the client address as aclIpAddrNetworkCompare masks it with the mask of some range value (hi - lo of a value with a mask
+        # is at least its block size - 1; a block of that size around x is what the mask leaves of x)
+        masked = {x}
+        for v in vals:
+            if v[0] == "v" and v[4] is not None and v[5] is not None and v[5][0] == "n" and 0 < v[5][1] <= (32 if v[1] == 4 else 128):
+                hostbits = (32 if v[1] == 4 else 128) - v[5][1]
+                masked.add((x >> hostbits) << hostbits)
+        if masked & special or any(lo == V4ANY or hi == V4ANY or lo == V4NO for lo, hi in eps):
             return "C42-address-operator-special-cases"
     return None
 
@@ -459,7 +477,7 @@ def avoids_known(vals, probes):
             if v[5] == ("n", 0) and v[1] == 6:
                 return False
             e = _endpoints(v)
-            if e and (e[0] in (V4ANY, V4NO) or e[1] == V4ANY or self_incomparable(v)):
+            if e and (e[0] in (V4ANY, V4NO) or e[1] == V4ANY or self_incomparable(v) or range_end_is_anyaddr(v)):
                 return False
     return not any(p in (V4ANY, V4NO) for p in probes)
 
@@ -517,6 +535,9 @@ KNOWN_REGION = [
     ([V(6, 7), V(6, 3), V(4, 0), V(6, 5)], [3, 5, 7, V4ANY, 4]),
     # C42-v6-slash-zero
     ([V(6, 0, None, ("n", 0))], [0, 1, V4ANY + 5, ALL1]),
+    # C42-range-end-anyaddr
+    ([V(6, V4ANY - 0x100, V4ANY, ("n", 120))], [V4ANY + 0xff, V4ANY - 1, V4ANY - 0x101]),
+    ([V(6, 5, V4ANY)], [5, 6, V4ANY]),
     # C42-self-incomparable-value-uaf (sanitizer abort: keep these few)
     ([V(4, 0x0a000005, 0x0a000003), V(4, 0x0a000001, 0x0a000009)], [V4ANY + 0x0a000004]),
 ]
